@@ -39,6 +39,7 @@ static std::string geosWrite(const WCfg& c, const Geometry* g) {
     GEOSWKTWriter_setTrim_r(H, w, (char) c.trim);
     GEOSWKTWriter_setRoundingPrecision_r(H, w, c.prec);
     GEOSWKTWriter_setOutputDimension_r(H, w, c.dim);
+    GEOSWKTWriter_setOutputDimension_r(H, w, c.dim + 3);   // 5, 6, 7: setOutputDimension must reject them and keep c.dim
     GEOSWKTWriter_setOld3D_r(H, w, c.old3d);
     char* s = GEOSWKTWriter_write_r(H, w, cg(g));
     std::string r = s ? s : "WRITE-FAILED";
@@ -118,6 +119,7 @@ static double genValue(Rng& r, Out& out) {
 static int genPrec(Rng& r, bool wide) {
     int k = (int) r.below(100);
     if (k < 8) return -1;
+    if (k < 11) { static const int neg[] = {-2, -3, -17, -1000}; return neg[r.below(4)]; }   // setRoundingPrecision clamps these to -1
     if (k < 90 || !wide) return r.range(0, 20);
     static const int big[] = {21, 22, 25, 30, 100, 340, 1000};
     return big[r.below(7)];
